@@ -17,11 +17,13 @@ func init() {
 		Assumptions: []string{
 			"MTU in {3,4,5,6,7,8,16,17,100}; unit types {1,5,7,8,9,12} (+6,23 in short sequences); sizes {2,3,MTU-1,MTU,MTU+1,2MTU+1}; bodies contain no zero byte (Annex-B conformant: no start-code emulation, no trailing zero); a final type-1 unit is appended so that held-back parameter sets have a next unit; a separate scenario sweeps SPS/PPS sizes so that STAP-A(SPS,PPS) is one byte under, exactly at and one byte over every MTU 9..40",
 			"the hold-back anomalies of H264Payloader for parameter sets that are not an SPS immediately followed by a PPS, and the silent drop of a STAP-A larger than the MTU, are listed known findings matched by an exact defect model of the hold-back state machine",
+			"wide scenario: every NAL type 1-23 x NRI 0-3 alone and after an SPS/PPS pair; units of 300, 257*(MTU-2)+1 (more than 256 fragments), 70000 bytes for MTU {5,100,1200}; all sequences of 5-6 units over {slice 2B, slice MTU+1, SPS+PPS pair} split over three calls",
 			"decoder side: F bit 0, FU-A trains of 2-4 fragments with every split point of units of up to 8 bytes",
 		},
 		Scenarios: []mc.Scenario{
 			{Name: "payloader-to-depacketizer", Tiers: "qt", ShardDepth: 4, Run: c10Roundtrip},
 			{Name: "stapa-at-the-mtu-boundary", Tiers: "qt", ShardDepth: 3, Run: c10StapABoundary},
+			{Name: "all-types-large-units-long-sequences", Tiers: "qt", ShardDepth: 3, Run: c10Wide},
 			{Name: "reference-encoder-to-depacketizer", Tiers: "qt", ShardDepth: 3, Run: c10Decoder},
 		},
 	})
@@ -414,4 +416,57 @@ func c10Decoder(c *mc.Ctx) {
 		c.NonTrivial()
 	}
 	c.Outcome(kinds)
+}
+
+// c10Wide: dimensions the product scenario keeps small, taken one at a time.
+func c10Wide(c *mc.Ctx) {
+	kind := c.Pick(3)
+	avc := c.Bool()
+	disableStapA := c.Bool()
+	switch kind {
+	case 0: // every type and NRI
+		typ := uint8(1 + c.Pick(23))
+		nri := uint8(c.Pick(4))
+		mtu := mc.From(c, []int{3, 8, 100})
+		size := mc.From(c, []int{2, mtu, mtu + 1, 3*mtu + 2})
+		raw := [][]byte{ref.H264Unit(typ, nri, size, 5)}
+		codes := []int{3 + c.Pick(2)}
+		if c.Bool() && typ != 7 && typ != 8 {
+			raw = [][]byte{ref.H264Unit(7, 3, 4, 1), ref.H264Unit(8, 3, 3, 2), raw[0]}
+			codes = []int{4, 3, codes[0]}
+		}
+		raw = append(raw, ref.H264Unit(1, 2, 2, 0xEE))
+		codes = append(codes, 4)
+		c10Core(c, mtu, disableStapA, avc, raw, codes, 0)
+	case 1: // large units: more than 256 fragments, more than 65535 bytes
+		mtu := mc.From(c, []int{5, 100, 1200})
+		size := mc.From(c, []int{300, 257*(mtu-2) + 1, 70000})
+		typ := mc.From(c, []uint8{1, 5, 7})
+		if typ == 7 && !disableStapA {
+			return
+		}
+		raw := [][]byte{ref.H264Unit(typ, 2, size, 9), ref.H264Unit(1, 2, 2, 0xEE)}
+		c10Core(c, mtu, disableStapA, avc, raw, []int{4, 3}, c.Pick(2))
+	case 2: // longer sequences
+		mtu := mc.From(c, []int{6, 40})
+		n := 5 + c.Pick(2)
+		var raw [][]byte
+		var codes []int
+		for i := 0; i < n; i++ {
+			switch c.Pick(3) {
+			case 0:
+				raw = append(raw, ref.H264Unit(1, 2, 2, byte(i)))
+				codes = append(codes, 3)
+			case 1:
+				raw = append(raw, ref.H264Unit(5, 3, mtu+1, byte(i)))
+				codes = append(codes, 4)
+			case 2:
+				raw = append(raw, ref.H264Unit(7, 3, 3, byte(i)), ref.H264Unit(8, 3, 2, byte(i)))
+				codes = append(codes, 4, 3)
+			}
+		}
+		raw = append(raw, ref.H264Unit(1, 2, 2, 0xEE))
+		codes = append(codes, 4)
+		c10Core(c, mtu, disableStapA, avc, raw, codes, c.Pick(3)*2)
+	}
 }
